@@ -175,7 +175,7 @@ func runC02(pl *plan.Plan, out *plan.Outcome) {
 		s.closeExporter()
 	})
 	if res := env.Run(); res != "done" && out.Trouble == "" {
-		out.Trouble = "run ended: " + res
+		env.runEnded(res, out)
 	}
 	if sess == nil {
 		return
